@@ -322,7 +322,9 @@ fn r_ws(n: u32) -> bool { n % 2 == 0 }
 
 fn content_type(mime: &str, var: &str, vs: &Vals, r: &mut Rng) -> Option<String> {
     let base = match mime { "JSON" => "application/json", "URLEncoded" => "application/x-www-form-urlencoded", "Multipart" => "multipart/form-data",
-                            "Text" => "text/plain", "XML" => *r.pick(&["application/xml", "image/png", "application/octet-stream", "text/html"]), _ => return None };
+                            "Text" => "text/plain", // "another type": unrelated types, and strict prefixes of the types the extractors expect (a truncated type is not that type)
+                            "XML" => *r.pick(&["application/xml", "image/png", "application/octet-stream", "text/html",
+                                               "text", "text/", "text/plai", "application", "application/js", "application/x-www-form", "multipart/form-da", "multipart"]), _ => return None };
     let bnd = if mime == "Multipart" { format!("; boundary={}", vs.bnd) } else { String::new() };
     Some(match var {
         "params" => if mime == "Multipart" { format!("{base}; charset=utf-8{bnd}") } else { format!("{base}{}", *r.pick(&["; charset=utf-8", ";charset=UTF-8", "; charset=utf-8; x=y"])) },
